@@ -9,12 +9,12 @@ theorem naturalAlignment_cases (s : Int) (h : 1 ≤ s) :
     (naturalAlignment s = 16 ∧ 9 ≤ s) := by
   unfold naturalAlignment
   by_cases h2 : s ≤ 2
-  · simp only [h2, if_true]; omega
+  · rw [if_pos h2]; omega
   · by_cases h4 : s ≤ 4
-    · simp only [h2, h4, if_true, if_false]; omega
+    · rw [if_neg h2, if_pos h4]; omega
     · by_cases h8 : s ≤ 8
-      · simp only [h2, h4, h8, if_true, if_false]; omega
-      · simp only [h2, h4, h8, if_false]; omega
+      · rw [if_neg h2, if_neg h4, if_pos h8]; omega
+      · rw [if_neg h2, if_neg h4, if_neg h8]; omega
 
 /-- `get_alloca_size_align`: the alignment is 1, 2, 4, 8 or 16 and divides the rounded size, which
 covers the request (at least one byte) and exceeds it by less than the alignment -/
@@ -29,8 +29,8 @@ theorem allocaSizeAlign_spec (s : Int) :
     rw [this]; refine ⟨Or.inl rfl, ?_, ?_, ?_, ?_⟩ <;> simp <;> omega
   · simp only [h0, if_false]
     rcases naturalAlignment_cases s (by omega) with ⟨e, h⟩ | ⟨e, h⟩ | ⟨e, h⟩ | ⟨e, h⟩ | ⟨e, h⟩ <;> rw [e]
-    · subst h; refine ⟨by simp, ?_, ?_, ?_, ?_⟩ <;> simp
-    · subst h; refine ⟨by simp, ?_, ?_, ?_, ?_⟩ <;> simp
+    · subst h; refine ⟨by simp, ?_, ?_, ?_, ?_⟩ <;> first | omega | simp
+    · subst h; refine ⟨by simp, ?_, ?_, ?_, ?_⟩ <;> first | omega | simp
     · refine ⟨by simp, Int.dvd_mul_left _ _, ?_, ?_, ?_⟩ <;> omega
     · refine ⟨by simp, Int.dvd_mul_left _ _, ?_, ?_, ?_⟩ <;> omega
     · refine ⟨by simp, Int.dvd_mul_left _ _, ?_, ?_, ?_⟩ <;> omega
